@@ -16,14 +16,15 @@ type Plan struct {
 	Domain   string // base | mut | sample
 	Flavours []string
 	NSet     []int
-	TSel     []int // nil = all
-	Sample   int   // number of draws (Domain sample)
-	Emit     bool  // false: design-level check only, nothing replayed
-	Access   bool  // also run the cases on the access node
-	History  bool  // every case under every announcement history of the eon's keyper set
-	NoKeyper bool  // do not run the cases through the keyper handlers (database double)
-	Heavy    bool  // millions of cases: TLC gets all workers, heavy plans run one after the other
-	Optional bool  // skipped when the time budget of the tier is used up before the plan starts
+	TSel     []int  // nil = all
+	Sample   int    // number of draws (Domain sample)
+	Emit     bool   // false: design-level check only, nothing replayed
+	Access   bool   // also run the cases on the access node
+	Assembly string // "" | "code" | "both": also run the cases through the combined validator of a keyper assembly
+	History  bool   // every case under every announcement history of the eon's keyper set
+	NoKeyper bool   // do not run the cases through the keyper handlers (database double)
+	Heavy    bool   // millions of cases: TLC gets all workers, heavy plans run one after the other
+	Optional bool   // skipped when the time budget of the tier is used up before the plan starts
 	LenRule  string
 }
 
@@ -57,7 +58,7 @@ func (p Plan) cfg() string {
 		rule = "equal"
 	}
 	var b strings.Builder
-	fmt.Fprintf(&b, "CONSTANTS\n  LenRule = %q\n  StoreRule = \"last\"\n  MissRule = \"reject\"\n  Flavours = %s\n  NSet = %s\n  TSel = %s\n  History = %s\n  Domain = %q\n  SampleNum = %d\n  Emit = %s\n",
+	fmt.Fprintf(&b, "CONSTANTS\n  LenRule = %q\n  StoreRule = \"last\"\n  MissRule = \"reject\"\n  RegRule = \"append\"\n  Flavours = %s\n  NSet = %s\n  TSel = %s\n  History = %s\n  Domain = %q\n  SampleNum = %d\n  Emit = %s\n",
 		rule, strSet(p.Flavours), intSet(p.NSet), intSet(tsel), strings.ToUpper(fmt.Sprint(p.History)), dom, p.Sample, strings.ToUpper(fmt.Sprint(p.Emit)))
 	fmt.Fprintf(&b, "SPECIFICATION %s\nINVARIANT Design\nINVARIANT EmitInv\nCHECK_DEADLOCK FALSE\n", spec)
 	return b.String()
